@@ -84,7 +84,7 @@ func verifTimerStop(t *time.Timer) bool {
 // expiry of an armed timer, at any moment (thread body)
 func verifTimerFire(vt *verifTimer) {
 	if atomic.CompareAndSwapInt32(&vt.armed, 1, 0) {
-		atomic.StoreInt32(&verifK.deliveredAtFire, atomic.LoadInt32(&verifK.delivered))
+		atomic.StoreInt32(&verifK.deliveredAtFire, atomic.LoadInt32(&verifK.acked))
 		atomic.AddInt32(&vt.fires, 1)
 		select {
 		case vt.ch <- time.Time{}:
@@ -129,7 +129,11 @@ func verifReadCall(c *connection, n int, vt *verifTimer, label string) {
 		verifAssert(closedBy != 0, label+"/ErrConnClosed-without-close")
 	}
 	// a failing call consumed nothing
-	verifAssert(closedBy != 0 || c.inputBuffer.Len() == int(atomic.LoadInt32(&verifK.delivered))-int(atomic.LoadInt32(&verifK.consumed)), label+"/failed-call-consumed-data")
+	// (`acked` counts deliveries whose bookAck is done, `delivered` those that were started)
+	// (read the monitor first: the buffer can only have grown since)
+	ackedBefore := int(atomic.LoadInt32(&verifK.acked))
+	have := c.inputBuffer.Len()
+	verifAssert(closedBy != 0 || have >= ackedBefore-int(atomic.LoadInt32(&verifK.consumed)), label+"/failed-call-consumed-data")
 }
 
 func verifDeliverCount(op *FDOperator, vs [][]byte, name string, max int) {
@@ -140,6 +144,7 @@ func verifDeliverCount(op *FDOperator, vs [][]byte, name string, max int) {
 		op.Inputs(vs)
 		atomic.AddInt32(&verifK.delivered, int32(n))
 		op.InputAck(n)
+		atomic.AddInt32(&verifK.acked, int32(n))
 		op.done()
 	}
 }
@@ -220,4 +225,61 @@ func verifHarness_C07_wake(sc int) {
 			verifAssert(c.inputBuffer.Len() < int(atomic.LoadInt64(&c.waitReadSize)) || atomic.LoadInt64(&c.waitReadSize) == 0, "C07/reader-blocked-although-enough-bytes-buffered")
 		}
 	})
+}
+
+// Sequential part: a timed read on a quiet connection (nothing else runs).
+//  fdconn == 0: connection as Accept/Dial build it; fdconn == 1: as NewFDConnection builds it
+//  (no addresses). `in` bytes are buffered, a read deadline dl (possibly already expired) or a
+//  read timeout is set, the call needs n bytes. The clock is an arbitrary non-decreasing
+//  instant. Blocking (deadline in the future, too few bytes) is a legitimate end.
+//
+//verif:bounds in, n in [0,8]; deadline/timeout/clock symbolic; connection built like Accept (0) or like NewFDConnection (1)
+//verif:param 0 1
+//verif:loop 40
+//verif:replay interp
+//verif:blockok
+func verifHarness_C07_deadline(fdconn int) {
+	var c *connection
+	if fdconn == 0 {
+		c = verifNewConn(verifConnCfg{closeCBs: 1})
+	} else {
+		verifK = &verifKMon{}
+		runner_RunTask_set()
+		pollmanager = newManager(1)
+		c = &connection{}
+		err := c.init(&netFD{fd: 7}, nil)
+		verifAssume(err == nil)
+	}
+	in := verifNondetInt("in")
+	verifAssume(in >= 0)
+	verifAssume(in <= 8)
+	if in > 0 {
+		vs := make([][]byte, 1)
+		c.inputs(vs)
+		c.inputAck(in)
+	}
+	n := verifNondetInt("n")
+	verifAssume(n >= 1)
+	verifAssume(n <= 8)
+	if verifNondetBool("use.deadline") {
+		dl := verifNondetInt64("deadline")
+		verifAssume(dl >= 1)
+		verifAssume(dl <= 1<<41)
+		c.readDeadline = dl
+	} else {
+		to := verifNondetInt64("timeout")
+		verifAssume(to >= 0)
+		verifAssume(to <= 1<<41)
+		c.readTimeout = time.Duration(to)
+	}
+	verifReach("before-read")
+	err := c.Skip(n)
+	if in >= n {
+		verifAssert(err == nil, "C07/timeout-although-bytes-were-buffered")
+	} else {
+		// only an expired deadline lets a quiet connection answer at once
+		verifAssert(err != nil && errors.Is(err, ErrReadTimeout), "C07/unexpected-result-on-quiet-connection")
+		verifAssert(c.inputBuffer.Len() == in, "C07/timeout-consumed-data")
+	}
+	verifReach("end")
 }
